@@ -10,7 +10,7 @@ use crate::{axecutor::Axecutor, helpers::errors::AxError};
 use wasm_bindgen::JsValue;
 
 use std::cmp::min;
-use std::convert::TryInto;
+use std::convert::{TryFrom, TryInto};
 
 /// The area must not be accessed
 pub const PROT_NONE: u32 = 0x0;
@@ -49,6 +49,20 @@ fn access_to_string(prot: u32) -> String {
     }
 
     s
+}
+
+/// Allocates `length` zeroed bytes. Sizes can come from the guest (brk) or from an ELF header (p_memsz),
+/// so an allocation that cannot be satisfied is reported as an error instead of aborting the process.
+fn zeroed_vec(length: u64) -> Result<Vec<u8>, AxError> {
+    let error = || AxError::from(format!("cannot allocate {length:#x} bytes of memory"));
+    let len = usize::try_from(length).map_err(|_| error())?;
+
+    // vec! aborts if the allocation fails, so check first that it can succeed
+    let mut probe: Vec<u8> = Vec::new();
+    probe.try_reserve_exact(len).map_err(|_| error())?;
+    drop(probe);
+
+    Ok(vec![0; len])
 }
 
 #[derive(Debug, Clone, Serialize, Deserialize)]
@@ -552,7 +566,7 @@ impl Axecutor {
 
         if let Some(i) = area_to_resize {
             // Resize the area -- this works for both shrinking and growing
-            let mut new_data = vec![0; new_size as usize];
+            let mut new_data = zeroed_vec(new_size)?;
             let old_data = &self.state.memory[i].data;
 
             // Copy the old data into the new data
@@ -676,7 +690,7 @@ impl Axecutor {
     }
     /// Initialize a memory area with the given length.
     pub fn mem_init_zero(&mut self, start: u64, length: u64) -> Result<(), AxError> {
-        self.mem_init_area_named(start, vec![0; length as usize], None)
+        self.mem_init_area_named(start, zeroed_vec(length)?, None)
     }
 
     /// Initialize a memory area with the given length and name.
@@ -686,7 +700,7 @@ impl Axecutor {
         length: u64,
         name: String,
     ) -> Result<(), AxError> {
-        self.mem_init_area_named(start, vec![0; length as usize], Some(name))
+        self.mem_init_area_named(start, zeroed_vec(length)?, Some(name))
     }
 
     /// Initialize a memory area of the given length at a random address.
